@@ -310,7 +310,7 @@ type d14 struct {
 
 var tagText = map[string]string{"none": "", "ren": `argmapper:"Ren"`, "typeOnly": `argmapper:",typeOnly"`,
 	"rensub": `argmapper:"Ren,subtype=s"`, "typeOnlysub": `argmapper:",typeOnly,subtype=s"`, "subeq": `argmapper:",typeOnly,subtype=k=v"`, "subup": `argmapper:"Ren,subtype=Foo"`,
-	"subfirst": `argmapper:",subtype=s,typeOnly"`, "renopt": `argmapper:"Ren,other"`, "typeOnlyRen": `argmapper:"Ren,typeOnly"`}
+	"subfirst": `argmapper:",subtype=s,typeOnly"`, "renopt": `argmapper:"Ren,other"`, "typeOnlyRen": `argmapper:"Ren,typeOnly"`, "subonly": `argmapper:",subtype=s"`}
 
 func sideTypes(s sideD) []reflect.Type {
 	switch s.Kind {
